@@ -142,14 +142,26 @@ def run_include(ctx, U, s, ext, cfg, hostile):
     os.environ['HOME'] = home
     err = None
     loaded = None
+    # the cart is named absolutely, by its bare name from its own directory, or relative to a directory above it
+    open_as = ('absolute', 'absolute', 'bare', 'relative')[(len(s) + len(cfg) + (1 if hostile else 0)) % 4]
+    old_cwd = os.getcwd()
+    cart_arg = cart
+    if open_as == 'bare':
+        os.chdir(cartdir)
+        cart_arg = os.path.basename(cart)
+    elif open_as == 'relative':
+        os.chdir(U)
+        cart_arg = os.path.relpath(cart, U)
+    ctx.feature('cart_named_' + open_as)
     try:
         with fsmon.Watch(U, roots, hostile) as w:
             try:
-                g = p8file.from_file(cart)
+                g = p8file.from_file(cart_arg)
                 loaded = b''.join(g.lua.to_lines())
             except BaseException as e:
                 err = e
     finally:
+        os.chdir(old_cwd)
         if old_home is None:
             os.environ.pop('HOME', None)
         else:
@@ -237,6 +249,15 @@ def run_require(ctx, U, s, lp, hostile, form=None, literal=None):
         os.environ['PICO8_LUA_PATH'] = env_path
     err = None
     rcode = None
+    old_cwd = os.getcwd()
+    named = ('absolute', 'absolute', 'bare', 'relative')[(len(s) + len(lp) + (1 if hostile else 0)) % 4]
+    if named == 'bare':
+        os.chdir(root)
+        argv = [os.path.basename(a) if a in (main, out) else a for a in argv]
+    elif named == 'relative':
+        os.chdir(U)
+        argv = [os.path.relpath(a, U) if a in (main, out) else a for a in argv]
+    ctx.feature('main_named_' + named)
     try:
         with fsmon.Watch(U, roots, hostile) as w:
             try:
@@ -244,6 +265,7 @@ def run_require(ctx, U, s, lp, hostile, form=None, literal=None):
             except BaseException as e:
                 err = e
     finally:
+        os.chdir(old_cwd)
         os.environ.pop('PICO8_LUA_PATH', None)
         if old is not None:
             os.environ['PICO8_LUA_PATH'] = old
@@ -429,7 +451,7 @@ def gates(m, tier):
     N = 3 if tier == 'quick' else 4
     if f.get('strings_enumerated', 0) != len(strings(N)):
         missed.append('strings enumerated %d of %d' % (f.get('strings_enumerated', 0), len(strings(N))))
-    for k in ('links_done', 'strings_through_directory_links', 'strings_with_backslash_separators', 'strings_with_undecodable_bytes', 'sequences_done', 'failed_load_before_case', 'failed_build_before_case', 'include_cfg:subdir', 'absolute_paths_done', 'hostile', 'real_fs', 'include_cfg:plain', 'include_cfg:carts', 'include_cfg:carts2', 'include_rejected',
+    for k in ('main_named_bare', 'main_named_relative', 'cart_named_bare', 'cart_named_relative', 'links_done', 'strings_through_directory_links', 'strings_with_backslash_separators', 'strings_with_undecodable_bytes', 'sequences_done', 'failed_load_before_case', 'failed_build_before_case', 'include_cfg:subdir', 'absolute_paths_done', 'hostile', 'real_fs', 'include_cfg:plain', 'include_cfg:carts', 'include_cfg:carts2', 'include_rejected',
               'include_loaded', 'require_rejected', 'require_built') + tuple('load_path:' + l for l in LOAD_PATHS):
         if f.get(k, 0) < 1:
             missed.append('%s never seen' % k)
